@@ -141,7 +141,7 @@ def run(tier):
     q = tier == 'quick'
     vlib.sany('CutSite')
     vlib.sany('Trace_CutSite')
-    actions = ['FragInit', 'NlaAcceptMotif', 'NlaAcceptShift', 'NlaReject', 'ChicRejectOrientation', 'ChicSetSite', 'ComputeHash']
+    actions = ['FragInit', 'NlaNoOverhang', 'NlaAcceptMotif', 'NlaAcceptShift', 'NlaReject', 'ChicRejectOrientation', 'ChicSetSite', 'ComputeHash']
     c.mc_pass('CutSite', 'MC_CutSite_design_%s.cfg' % ('q' if q else 't'), actions_required=actions, workers=8 if q else 12,
               timeout=1500)
     c.mc_negative('CutSite', 'MC_CutSite_impl_revmotif_q.cfg', expect_inv=['Inv_C09_CycleShift', 'Inv_C09_NlaTruth', 'Inv_C09_Mirror'], workers=4)
@@ -184,7 +184,7 @@ def run(tier):
         return evs
     vlib.corrupt_selftest(c, 'Trace_CutSite', comp, unequal_in_one_orientation, 'same_cut_not_equal_in_one_orientation')
     all_events += len(ev2)
-    n_frag += sum(4 if 'a2' in e else 2 for e in ev2)
+    n_frag += sum((4 if 'a2' in e else 2) if e['ev'] == 'pair' else 1 for e in ev2)
     os.remove(trace2)
 
     c.assumptions += ['DS convention taken from the repository: NlaIII DS = coordinate of the C of CATG on the forward reference '
